@@ -647,6 +647,14 @@ class Normalizer:
                         names |= {n.arg for n in ast.walk(e) if isinstance(n, ast.arg)}
                         if names & set(bound):
                             return node
+                        # an argument that is not a plain name / attribute / constant is evaluated exactly once by the call: the
+                        # substitution must keep that (the parameter occurs once, outside any conditional or repeated context)
+                        for p_, v_ in bound.items():
+                            if is_stable(v_):
+                                continue
+                            occ = [n for n in ast.walk(e) if isinstance(n, ast.Name) and n.id == p_ and isinstance(n.ctx, ast.Load)]
+                            if len(occ) != 1 or _in_conditional_context(e, occ[0]):
+                                return node
                         norm.counter += 1
                         rename = {nm: '%s__i%d' % (nm, norm.counter) for nm in names}
                         new = _Subst(bound, rename).visit(clone(e))
@@ -1366,6 +1374,32 @@ class Normalizer:
         fn._normalized_from = node
         self.log[f.qualname] = sorted(ctx['used'])
         return fn
+
+
+def _in_conditional_context(root, node):
+    """is `node` evaluated only sometimes, or more than once, when `root` is evaluated (arm of a conditional expression, right operand of
+    and/or, element of a comprehension, body of a lambda)?"""
+    def find(cur, cond):
+        if cur is node:
+            return cond
+        if isinstance(cur, ast.IfExp):
+            parts = [(cur.test, cond), (cur.body, True), (cur.orelse, True)]
+        elif isinstance(cur, ast.BoolOp):
+            parts = [(cur.values[0], cond)] + [(v, True) for v in cur.values[1:]]
+        elif isinstance(cur, (ast.ListComp, ast.SetComp, ast.GeneratorExp, ast.DictComp)):
+            first = cur.generators[0].iter
+            parts = [(first, cond)] + [(c, True) for c in ast.iter_child_nodes(cur) if c is not cur.generators[0]] + \
+                [(c, True) for c in ast.iter_child_nodes(cur.generators[0]) if c is not first]
+        elif isinstance(cur, ast.Lambda):
+            parts = [(c, True) for c in ast.iter_child_nodes(cur)]
+        else:
+            parts = [(c, cond) for c in ast.iter_child_nodes(cur)]
+        for c, k in parts:
+            r = find(c, k)
+            if r is not None:
+                return r
+        return None
+    return bool(find(root, False))
 
 
 def _elim_continue(stmts, loop):
